@@ -489,7 +489,7 @@ class Norm:
             g = guards
             for st in n["stmts"]:
                 self._index(st, depth, g)
-                cg = _continue_guard(st)
+                cg = _exit_guard(st)
                 if cg is not None:
                     g = g + (cg,)
             if "expr" in n:
@@ -1989,6 +1989,19 @@ def _only_continue(blk):
     if "expr" in blk:
         items.append(blk["expr"])
     return len(items) == 1 and strip(items[0]).get("k") == "Continue" and "label" not in strip(items[0])
+
+
+def _exit_guard(st):
+    """the condition under which the statements after `st` run, when `st` is a guard clause: `if c { return / continue / break }`
+    (no else) or `let PAT = X else { .. }`"""
+    sk = st.get("k")
+    if sk in ("SSemi", "SExpr"):
+        inner = strip(st["e"])
+        if inner.get("k") == "If" and "else" not in inner and (strip(inner["then"]).get("ty") == "!" or _only_continue(inner["then"])):
+            return ("if", inner["cond"], False)
+    elif sk == "SLet" and "els" in st:
+        return ("arm", st["init"], pat_repr(st["pat"]))
+    return None
 
 
 def _continue_guard(st):
